@@ -11,13 +11,14 @@ from .state import Unsupported, ContractError, PathEnd, ReturnSig, RaiseSig, Bre
 
 
 class LoopSpec(object):
-    def __init__(self, inv=(), modifies=None, havoc=None, havoc_attrs=(), note='', ghost=None):
+    def __init__(self, inv=(), modifies=None, havoc=None, havoc_attrs=(), note='', ghost=None, post=None):
         self.inv = [inv] if isinstance(inv, str) else list(inv)
         self.modifies = modifies or {}      # expression text -> T or None
         if isinstance(self.modifies, (list, tuple)):
             self.modifies = dict((m, None) for m in self.modifies)
         self.havoc = havoc or {}            # local name -> T
         self.havoc_attrs = list(havoc_attrs)
+        self.post = list(post) if post else None     # loop postcondition: cut point after the loop
         self.ghost = ghost or {}            # name -> expression evaluated (and frozen) at loop entry
         self.note = note
 
@@ -186,6 +187,13 @@ class Loops(object):
                 ctx.oblige('%s/%s/%s[%d]' % (fname, lid, tag, j), val, 'K', node,
                            note='invariant %r' % inv)
 
+        def check_post(g):
+            sfr = self.engine.spec_frame(fr, g)
+            sfr.entry = entry
+            for j, pexpr in enumerate(spec.post):
+                val = self.engine.eval_spec(ctx, sfr, pexpr)
+                ctx.oblige('%s/%s/post[%d]' % (fname, lid, j), val, 'K', node, note='loop postcondition %r' % pexpr)
+
         def assume_inv(g):
             sfr = self.engine.spec_frame(fr, g)
             sfr.entry = entry
@@ -194,6 +202,7 @@ class Loops(object):
 
         # 1. invariant holds on entry
         if kind == 'seq':
+            entry_ghosts['_seq'] = VSeq(data[0], data[1])
             z, et = data
             g0 = ghosts(VSeq(Z.empty_seq(et.zsort), et), z3.IntVal(0), VSeq(z, et))
         elif kind in ('set', 'items'):
@@ -216,7 +225,9 @@ class Loops(object):
                 raise ContractError('loop modifies entry %r is not a heap object' % expr)
             mod_refs[expr] = (v, t)
 
-        mode = ctx.nondet(2, lid)
+        mode = ctx.nondet(3 if spec.post is not None else 2, lid)
+        if spec.post is not None and node.orelse:
+            raise ContractError('loop postconditions are not supported for loops with an else clause')
 
         # 3. havoc
         names = assigned_names(node.body + [ast.Expr(node.target)] )
@@ -272,7 +283,25 @@ class Loops(object):
                 hi = data[1] if len(data) > 1 else data[0]
                 g = ghosts(None, z3.If(hi > lo, hi, lo))
             assume_inv(g)
+            # the ghosts of the finished loop stay visible to later spec expressions
+            fr.loop_ghosts = dict(getattr(fr, 'loop_ghosts', None) or {}, **g)
+            if spec.post is not None:
+                check_post(g)
+                raise PathEnd()
             I.exec_block(ctx, fr, node.orelse)
+            return
+
+        if mode == 2:
+            # continuation after the loop: everything the loop may have changed is havocked
+            # (done above) and only the loop postcondition is known
+            gi = Z.fresh('_i', Z.Int)
+            ctx.assume(gi >= 0)
+            g = ghosts(None, gi)
+            sfr = self.engine.spec_frame(fr, g)
+            sfr.entry = entry
+            for pexpr in spec.post:
+                ctx.assume(self.engine.eval_spec(ctx, sfr, pexpr))
+            fr.loop_ghosts = dict(getattr(fr, 'loop_ghosts', None) or {}, **g)
             return
 
         # an arbitrary iteration
@@ -286,6 +315,19 @@ class Loops(object):
             # redundant consequences, stated to spare the sequence solver the derivation
             ctx.assume(z[idx] == x)
             ctx.assume(z3.Length(z) == idx + 1 + z3.Length(rest))
+            # the iterated sequence is a concatenation: say which part the element comes from
+            zs = Z.simp(z)
+            if z3.is_app(zs) and zs.decl().kind() == z3.Z3_OP_SEQ_CONCAT:
+                off = z3.IntVal(0)
+                for pi in range(zs.num_args()):
+                    part = zs.arg(pi)
+                    ln = z3.Length(part)
+                    inpart = z3.And(idx >= off, idx < off + ln)
+                    if z3.is_app(part) and part.decl().kind() == z3.Z3_OP_SEQ_UNIT:
+                        ctx.assume(z3.Implies(idx == off, x == part.arg(0)))
+                    else:
+                        ctx.assume(z3.Implies(inpart, x == part[idx - off]))
+                    off = Z.simp(off + ln)
             g = ghosts(VSeq(done, et), idx, VSeq(rest, et))
             inv_e = et.inv(x)
             if inv_e is not None:
@@ -358,8 +400,10 @@ class Loops(object):
                 pass
         except BreakSig:
             ctx.loop_guard.pop()
-            fr.loop_ghosts = saved_ghosts
-            return
+            if spec.post is not None:
+                check_post(g)
+                raise PathEnd()
+            return      # the ghosts of the interrupted iteration stay visible (which element answered)
         except (ReturnSig, RaiseSig):
             ctx.loop_guard.pop()
             raise
